@@ -856,7 +856,11 @@ func (env *SpecEnv) call(x *SExpr) SV {
 		if a.sort == "Str" {
 			return SV{t: fmt.Sprintf("(strcontains %s %s)", a.t, v.t), sort: "Bool"}
 		}
-		return SV{t: fmt.Sprintf("(exists ((i!c Int)) (and (<= 0 i!c) (< i!c (%s_len %s)) (= (select (%s_arr %s) i!c) %s)))", a.sort, a.t, a.sort, a.t, v.t), sort: "Bool"}
+		if _, ok := g.sliceElem[a.sort]; !ok {
+			env.fail("contains: not a slice (%s)", a.sort)
+			break
+		}
+		return SV{t: fmt.Sprintf("(%s %s %s)", g.HasElem(a.sort), a.t, v.t), sort: "Bool"}
 	case "zero":
 		// zero(TypeName)
 		if len(x.Args) == 1 && x.Args[0].Op == "id" {
